@@ -153,6 +153,12 @@ TangentParts(d, c, withK, withG, NLk, NLg, full) == TangentPartsT(d, c, withK, w
 KT(d, c) == TangentParts(d, c, TRUE, TRUE, TRUE, TRUE, FALSE)
 KTT(d, c, tp) == TangentPartsT(d, c, TRUE, TRUE, TRUE, TRUE, FALSE, tp)
 KTFull(d, c) == TangentParts(d, c, TRUE, TRUE, TRUE, TRUE, TRUE)
+(* tolerance scale of the linear stiffness when it is integrated numerically: the quadrature sums carry
+   rounding noise of every strain-variation product, also of those whose exact integral vanishes *)
+QuadScale(d) ==
+    LET n == Size(d)
+        dn == Fn([k \in 1..n |-> NormVec(VarStrains(d, k, P2Zero, P2Zero, FALSE))])
+    IN Fn([k \in 1..n |-> Fn([l \in 1..n |-> RMul(RMul(Jac(d), RFromInt(4)), RDot(dn[k], MVec(d.Fs, dn[l])))])])
 (* state-based geometric stiffness: resultants of the state (linear strains unless NL) *)
 KGState(d, c, NL) == TangentParts(d, c, FALSE, TRUE, FALSE, NL, FALSE)
 KGStateT(d, c, NL, tp) == TangentPartsT(d, c, FALSE, TRUE, FALSE, NL, FALSE, tp)
